@@ -66,7 +66,17 @@ def freeze(v):
         return (type(v).__name__, tuple(sorted((freeze(x) for x in v), key=repr)))
     if v is None or isinstance(v, (bool, int, float, str, bytes)):
         return (type(v).__name__, repr(v))
+    if type(v).__name__ == "HostRecord":
+        return ("HostRecord", freeze(vars(v)))
     return (type(v).__name__, "<object>")
+
+
+class HostRecord(object):
+    """a yaqlized host object inside the input document: its attributes are REAL lists / dicts that never pass through
+    input conversion (only `$` is converted; attribute reads hand out what the host object holds)"""
+
+    def __init__(self, **kw):
+        self.__dict__.update(kw)
 
 
 def scramble(v, depth=0):
@@ -95,7 +105,13 @@ def scramble(v, depth=0):
 def host_data():
     return {"l": [3, 1, 2], "ll": [[1, 2], [3], []], "d": {"a": 1, "b": [1, 2], "c": {"x": 1}}, "s": {1, 2, 3},
             "ld": [{"a": 1, "b": 2}, {"a": 3, "b": 4}], "n": 2, "t": "ab", "e": [], "k": "a",
-            "odd": {"__src": 1, "2nd-unit": 2, "": 3, "-x": 4, "ok": 5}}
+            "odd": {"__src": 1, "2nd-unit": 2, "": 3, "-x": 4, "ok": 5},
+            "obj": _record()}
+
+
+def _record():
+    from yaql import yaqlization
+    return yaqlization.yaqlize(HostRecord(items=[1, 2, 3], cfg={"a": [1], "b": 2}, tags={1, 2}))
 
 
 ARGS = ["$.l", "$.ll", "$.d", "$.s", "$.ld", "$.n", "$.t", "$.e", "$.k", "1", "0", "'a'", "$", "$ + 1", "$.a", "[$, $]",
@@ -145,10 +161,11 @@ def stmt_snapshot(stmt):
 
 POOL = [("$.l", [3, 1, 2]), ("$.ll", [[1, 2], [3], []]), ("$.d", {"a": 1, "b": [1, 2], "c": {"x": 1}}), ("$.s", {1, 2, 3}),
         ("$.ld", [{"a": 1, "b": 2}, {"a": 3, "b": 4}]), ("$.odd", {"__src": 1, "2nd-unit": 2, "": 3, "-x": 4, "ok": 5}),
-        ("$hd", {"q": [1], "__p": 2, "9z": 3}), ("$.n", 2), ("$.t", "ab"), ("$.e", []), ("$.k", "a"), ("1", 1), ("0", 0),
+        ("$hd", {"q": [1], "__p": 2, "9z": 3}), ("$hv", [1, 2, 3]), ("$.obj.items", [1, 2, 3]), ("$.obj.cfg", {"a": [1], "b": 2}),
+        ("$.obj.tags", {1, 2}), ("$.n", 2), ("$.t", "ab"), ("$.e", []), ("$.k", "a"), ("1", 1), ("0", 0),
         ("'a'", "a"), ("true", True), ("null", None), ("[9]", [9]), ("{z => 1}", {"z": 1}), ("-1", -1), ("[[7, 8]]", [[7, 8]])]
 LAMBDAS = ["$", "$ + 1", "$.a", "[$, $]", "$1 + $2", "$ > 1", "$ = 1", "[$, $ + 1]"]
-MUTABLE_ARGS = ("$.l", "$.ll", "$.d", "$.s", "$.ld", "$.e", "$.odd", "$hd")
+MUTABLE_ARGS = ("$.l", "$.ll", "$.d", "$.s", "$.ld", "$.e", "$.odd", "$hd", "$hv", "$.obj.items", "$.obj.cfg", "$.obj.tags")
 SKIP = {"now", "random", "randomInt", "assert", "cycle", "repeat", "sequence", "generate", "generateMany", "range"}
 
 
@@ -594,7 +611,55 @@ def hidden_parameter_writers(run):
                 return
 
 
+def no_context_histories(run):
+    """Statement.evaluate(data) WITHOUT a context behaves as with a brand-new standard context every time: nothing of an
+    earlier evaluation (its `$`, the host's later edits of that data) is visible to a later one, whichever statement,
+    engine or order."""
+    import yaql
+    rng = run.rng
+    engs = [yaql.YaqlFactory().create(), yaql.YaqlFactory().create({"yaql.convertInputData": False}),
+            yaql.YaqlFactory(allow_delegates=True).create()]
+    texts = ["$", "[$, $1]", "$.l", "$x", "let(x => $) -> $x", "[1, 2].select($ + 1).toList()", "$ = null", "$.len()",
+             "coalesce($, 7)", "$.l.len() + 1"]
+    docs = [None, 5, "s", [1, 2], {"l": [1, 2, 3]}, {"l": []}]
+    NO = object()
+    for _ in range(run.n(60, 600)):
+        stmts = {}
+        for step in range(rng.randrange(2, 7)):
+            eng = rng.choice(engs)
+            text = rng.choice(texts)
+            stmt = stmts.setdefault((id(eng), text), eng(text)) if rng.random() < 0.6 else eng(text)
+            doc = rng.choice(docs + [NO, NO, NO])
+            kw = {} if doc is NO else {"data": doc}
+            try:
+                got = ("ok", freeze(stmt.evaluate(**kw)))
+            except Exception as e:
+                got = ("err", type(e).__name__)
+            try:
+                want = ("ok", freeze(eng(text).evaluate(context=yaql.create_context(), **kw)))
+            except Exception as e:
+                want = ("err", type(e).__name__)
+            run.case(("noctx", text, repr(doc) if doc is not NO else "<none>", step), nontrivial=step > 0 and doc is NO)
+            run.count("no_context_step")
+            if got != want:
+                run.fail("violation", "evaluate() without a context sees state of an earlier evaluation (it does not behave as "
+                                      "with a fresh standard context)",
+                         {"expression": text, "data_given": doc is not NO, "step": step, "observed": repr(got)[:300],
+                          "required": repr(want)[:300]})
+                return
+            if doc is not NO and isinstance(doc, (list, dict)) and rng.random() < 0.5:
+                # the host edits the document it passed; nothing may track it
+                (doc.append(99) if isinstance(doc, list) else doc.__setitem__("edited", 1))
+        for d in docs:          # restore the shared documents
+            if isinstance(d, list):
+                while 99 in d:
+                    d.remove(99)
+            elif isinstance(d, dict):
+                d.pop("edited", None)
+
+
 def oracle(run, deep):
+    no_context_histories(run)
     hidden_parameter_writers(run)
     sweep(run, deep)
     sequences(run)
